@@ -5,6 +5,7 @@ use std::io::Write;
 use brush_core::{
     ExecutionExitCode, ExecutionResult, builtins,
     env::{EnvironmentLookup, EnvironmentScope},
+    escape,
     parser::ast,
     variables,
 };
@@ -163,7 +164,11 @@ fn display_all_exported_vars(
         if variable.is_exported() {
             let value = variable.value().try_get_cow_str(context.shell);
             if let Some(value) = value {
-                writeln!(context.stdout(), "declare -x {name}=\"{value}\"")?;
+                writeln!(
+                    context.stdout(),
+                    "declare -x {name}={}",
+                    escape::force_quote(value.as_ref(), escape::QuoteMode::DoubleQuote)
+                )?;
             } else {
                 writeln!(context.stdout(), "declare -x {name}")?;
             }
